@@ -591,6 +591,8 @@ def vec_update(ci, fn):
     old = ci.ev.load(ci.st, a[1])
     new = fn(as_seq(old))
     ci.ev.store(ci.st, a[1], new, ci.w)
+    if ci.st.aux.get("watch_vec"):
+        ci.st.emit(("vecop", ci.name.split("::")[-1], a[1], tuple(ci.args[1:]), ci.w, tuple(ci.deref(x) if x[0] == "ref" else None for x in ci.args[1:])))
     return UNIT
 
 
@@ -748,7 +750,8 @@ def m_wrapping(ci):
 def m_ref_binop(ci):
     m = re.search(r"ops::bit::(\w+)<", ci.name)
     op = m.group(1)
-    a = ci.deref(ci.args[0]) if ci.args[0][0] == "ref" else ci.args[0]
+    # `<&u8 as Op<..>>`: the left operand is a reference even when it is symbolic (e.g. a slice iterator's item)
+    a = ci.deref(ci.args[0]) if (ci.args[0][0] == "ref" or ci.name.startswith("<&")) else ci.args[0]
     b = ci.deref(ci.args[1]) if ci.args[1][0] == "ref" else ci.args[1]
     return ci.ev.binop(ci.st, op, a, b, "u8")
 
